@@ -439,11 +439,34 @@ def crowd(draw):
     """Several waiters of one kind on one object and a feeder that, in ONE slice, performs a burst of
     operations each of which can serve a waiter (releases, puts, gets, cancels of different handles),
     optionally while some of the waiters leave by timeout / interrupt in that same instant."""
-    kind = draw(st.sampled_from(["res", "pool", "bget", "bput", "oget", "oput", "kget", "kput", "kput"]))
+    kind = draw(st.sampled_from(["res", "pool", "bget", "bput", "oget", "oput", "kget", "kput", "kput", "cond", "cond"]))
     n = draw(st.integers(2, 5))
     t1 = draw(st.sampled_from([0.5, 1.0, 1.0]))
     cap = draw(st.integers(1, 4))
     L = ["mode sim", "start 0"]
+    if kind == "cond":
+        # waiters with different thresholds, priorities and arrival instants (a later, higher-priority,
+        # unsatisfied arrival reshuffles the waiting list); the feeder raises the counter and signals
+        t1 = 4.0
+        L += ["res R0", "cond C0", "observe C0 R0"]
+        L.append("proc p0 prio %s start 0 sprio 0" % draw(st.sampled_from([3, 0, -1])))
+        L.append("op acquire R0")
+        L.append("op hold %s" % fhex(t1))
+        for _ in range(draw(st.integers(1, 3))):
+            L.append("op ctrset 0 %d" % draw(st.integers(0, 3)))
+            L.append(draw(st.sampled_from(["op csignal C0", "op csignal C0", "op release R0", "op hold 0x0p0"])))
+        L.append("op hold 0x1p0")
+        for w in range(1, n + 1):
+            L.append("proc p%d prio %s start %s sprio 0" % (w, draw(st.sampled_from([0, 0, 0, 1, 5, -1])),
+                                                            fhex(draw(st.sampled_from([0.0, 0.5, 1.0, 2.0, 3.0])))))
+            if draw(st.integers(0, 5)) == 0:
+                L.append("op timer_add %s -5" % fhex(draw(st.sampled_from([1.0, 2.0, 4.0]))))
+            L.append("op cwait C0 %s" % draw(st.sampled_from(["ctr 0 1", "ctr 0 1", "ctr 0 2", "ctr 0 3", "resfree R0 0", "false 0 0"])))
+            L.append(draw(st.sampled_from(["op hold 0x0p0", "op return 2"])))
+        for _ in range(draw(st.integers(0, 2))):
+            L.append("at %s %s setprio p%d %s" % (fhex(draw(st.sampled_from([1.0, 3.0, 4.0]))), draw(PRIOS),
+                                                  draw(st.integers(1, n)), draw(st.sampled_from([0, 1, 5]))))
+        return "\n".join(L) + "\n"
     L += {"res": ["res R0"], "pool": ["pool P0 %d" % cap], "bget": ["buf B0 %d" % cap], "bput": ["buf B0 %d" % cap],
           "oget": ["oq Q0 %d" % cap], "oput": ["oq Q0 %d" % cap], "kget": ["pq K0 %d" % cap], "kput": ["pq K0 %d" % cap]}[kind]
     # the feeder first makes the object unavailable, waits until t1, then serves in a burst
